@@ -52,5 +52,8 @@ func main() {
 		c.Count("quiescence_detector_selftest_passed", 1)
 	}
 	f(c)
+	if n := atomic.LoadInt64(&proxyViaRef); n > 0 {
+		c.Count("proxies_obtained_through_object_references", n)
+	}
 	c.Done()
 }
